@@ -44,7 +44,7 @@ D5 == [ int1 |-> <<"int", 1>>, f1 |-> <<"f64", FALSE, <<1>>, 0>>, f01 |-> <<"f64
 D16 == [ m |-> <<"map", [a |-> <<"map", [b |-> <<"map", [a |-> <<"int64", FALSE, <<4,6,1,1,6,8,6,0,1,8,4,2,7,3,8,7,9,0,5>>>>, z |-> <<"nil">>]>>, z |-> <<"int", 0>>, n |-> <<"nilptr">>]>>,
                          b |-> <<"str", <<120>>>>, z |-> <<"nil">>, len |-> <<"int", 3>>]>>,
          tm |-> <<"tmapint", [a |-> 5, z |-> 0]>>, ts |-> <<"tmapstr", [a |-> <<120>>, z |-> <<>>, true |-> <<116>>]>>,
-         true |-> <<"int", 8>>, null |-> <<"int", 9>>, f63 |-> <<"f64", FALSE, <<9,2,2,3,3,7,2,0,3,6,8,5,4,7,7,6>>, 3>>, f19 |-> <<"f64", TRUE, <<1>>, 19>>,
+         true |-> <<"int", 8>>, null |-> <<"int", 9>>, ra |-> <<"rowA">>, rb |-> <<"rowB">>, f63 |-> <<"f64", FALSE, <<9,2,2,3,3,7,2,0,3,6,8,5,4,7,7,6>>, 3>>, f19 |-> <<"f64", TRUE, <<1>>, 19>>,
          st |-> <<"struct", [A |-> <<"int", 4>>, B |-> <<"map", [a |-> <<"f64", FALSE, <<2,5>>, -1>>]>>, N |-> <<"nilptr">>, P |-> <<"str", <<112>>>>], <<"c">>>>,
          nm |-> <<"nilmap">>, ns |-> <<"nilslice">>,
          np |-> <<"nilptr">>, nl |-> <<"nil">>, s |-> <<"str", <<97>>>>, n |-> <<"int64", TRUE, <<9,0,0,7,1,9,9,2,5,4,7,4,0,9,9,3>>>>, a |-> <<"int32", 9>>,
